@@ -843,6 +843,10 @@ class tensor:
             grps = np.arange(0, n)[None, :]
         elif len(grps.shape) == 1:
             grps = np.array([grps])
+        if np.any(grps < 0) or np.any(grps >= n) or any(
+            np.unique(grp).size != grp.size for grp in grps
+        ):
+            assert False, "Groups must list distinct modes of the tensor"
 
         # Substantially different routines are called depending on whether the user
         # requests the permutation information. If permutation is required
@@ -1449,6 +1453,10 @@ class tensor:
 
         if len(grps.shape) == 1:
             grps = np.array([grps])
+        if np.any(grps < 0) or np.any(grps >= n) or any(
+            np.unique(grp).size != grp.size for grp in grps
+        ):
+            assert False, "Groups must list distinct modes of the tensor"
 
         data = self.data.copy()
 
